@@ -10,6 +10,7 @@ git -C /repo worktree remove --force $L/repo 2>/dev/null || true
 rm -rf $L/verif
 mkdir -p $L
 git -C /repo worktree add --detach $L/repo HEAD >/dev/null
+cp /repo/Cargo.lock $L/repo/Cargo.lock   # git-ignored, so not part of the worktree
 rsync -a --exclude harness/target --exclude replays --exclude .git /verif/ $L/verif/
 sed -i "s|/repo/|$L/repo/|g" $L/verif/harness/Cargo.toml
 mkdir -p $L/verif/replays
